@@ -170,21 +170,24 @@ GEN = {"kernel": ("theories/Gen/GenEquiv.vo", "kernel of /repo (gene_datum.py, o
        "guards": ("theories/Proofs/GuardsP.vo", "guard functions of /repo (MergeData._validate_chromosome/_windows/_gene_names, PreProcessor._validate_split, check_strand; the calls of the guards by MergeData.sum and import_filtered_genes): accept exactly what the models accept (Proofs/GuardsP.v)"),
        "reader": ("theories/Props/C15code.vo", "loading protocol of /repo's DensityData (__init__, _swap_strand_vals, _index_of_gene, verify_h5_cache) over symbolic file names: same raw file, same trusted copy, same values served as Model.Reader.load; exchange loop = swap_all (Proofs/ReaderCodeP.v)"),
        "writers": ("theories/Props/C12code.vo", "writers of the reused intermediates of /repo (ReviseAnno._write, GeneData.write, TransposonData.write, _calculate_overlap_job, error path of _process_overlap_job) as lists of file actions: atomic at every crash point (Props/C12code.v)"),
+       "overlap": ("theories/Props/C01code.vo", "the loop of /repo's OverlapWorker.calculate with _reset, the filters, the index dictionaries and the slice functions: the assignment log equals Model.OverlapArr.calc_with by conversion, and for unique known names and unique non-negative windows every labelled row holds the overlaps Pipeline.cell_num sums and nothing outside the index ranges is assigned (Proofs/OverlapArrP.v)"),
+       "merge": ("theories/Props/C01merge.vo", "MergeData.sum of /repo after its guards (_process_sum, the three parameter sets of _list_sum_input_outputs for both group axes, the slice functions, the labels of _open_new_file), in any order of the six summations: "
+                 "from overlap arrays holding the labelled rows, the density cell (axis, side, group index, window index, gene index) is Pipeline.cell of the group, gene and window of those NAMES, and nothing outside the arrays' shape is assigned (Proofs/MergeArrP.v)"),
        "store": ("theories/Props/C19code.vo", "opening of /repo's density store (_DensitySubset.__init__ and the six methods it calls), executed symbolically over h5py's require_dataset: equal to Model.Store2.open for every configuration and stored group (Proofs/StoreCodeP.v)"),
        "cf_worker_run": ("theories/Props/C20code.vo", "control flow of /repo's WorkerProcess.run (+ _send_result) as an interaction program: equal to Model/Worker.v on every script (Proofs/WorkerProgP.v)"),
        "cf_handle_chrome": ("theories/Props/C11code.vo", "control flow of /repo's _ProgressBars.handle_chrome (+ _pop, _collect) as an interaction program: in lockstep with Model/Collector.v under every schedule (Proofs/CollectorProgP.v)")}
 # further property files (theorems about the translated code) whose theorems and Print Assumptions are checked with the property's own
-EXTRA_PROPS = {"C20": ["C20code.v"], "C11": ["C11code.v"], "C02": ["C02code.v"], "C03": ["C03float.v"], "C13": ["C13code.v"], "C18": ["C18code.v"], "C15": ["C15code.v"], "C09": ["C15code.v"], "C12": ["C12code.v"], "C17": ["C12code.v"], "C19": ["C19code.v"],
+EXTRA_PROPS = {"C01": ["C01code.v", "C01merge.v"], "C04": ["C01code.v"], "C07": ["C01code.v", "C01merge.v"], "C08": ["C01code.v", "C01merge.v"], "C20": ["C20code.v"], "C11": ["C11code.v"], "C02": ["C02code.v"], "C03": ["C03float.v"], "C13": ["C13code.v"], "C18": ["C18code.v"], "C15": ["C15code.v"], "C09": ["C15code.v"], "C12": ["C12code.v"], "C17": ["C12code.v"], "C19": ["C19code.v"],
                "C05": ["C18code.v"]}
 # axioms of Coq's standard library that the theorems of a property file may depend on (everything else: none)
 STDLIB_REALS = {"ClassicalDedekindReals.sig_forall_dec", "ClassicalDedekindReals.sig_not_dec",
                 "FunctionalExtensionality.functional_extensionality_dep", "Classical_Prop.classic"}
 ALLOWED_AXIOMS = {"C03float.v": STDLIB_REALS}
 # which translated parts each property's theorems rest on
-NEEDS = {"C01": ["kernel", "revise"], "C02": ["kernel", "revise"], "C03": ["kernel"], "C04": ["kernel", "revise"], "C05": ["kernel", "guards"], "C06": ["kernel"], "C07": ["kernel"],
+NEEDS = {"C01": ["kernel", "revise", "overlap", "merge"], "C02": ["kernel", "revise"], "C03": ["kernel"], "C04": ["kernel", "revise", "overlap"], "C08": ["kernel", "overlap", "merge"], "C05": ["kernel", "guards"], "C06": ["kernel"], "C07": ["kernel", "overlap", "merge"],
          "C10": ["kernel"], "C14": ["kernel", "cache"], "C12": ["cache", "guards", "writers"], "C13": ["cache", "guards"], "C17": ["cache", "guards", "writers"],
          "C18": ["guards"], "C19": ["store"], "C09": ["reader"], "C15": ["reader"], "C16": ["reader"],
-         "C20": ["cf_worker_run"], "C11": ["cf_handle_chrome"]}
+         "C20": ["cf_worker_run"], "C11": ["cf_handle_chrome", "cache"]}
 
 
 def standard_obligations(chk, props_file):
@@ -237,3 +240,182 @@ def standard_obligations(chk, props_file):
                    ok_ and not extra_ax and not summ.get("type_in_type") and not summ.get("unsafe_fix") and not summ.get("positivity"), text_)
         chk.cov["coqchk"] = summ
     return True
+
+
+def overlap_unit(chk, r, n=None):
+    """The translator's reading of the loop of OverlapWorker.calculate (dictionaries, slices, filters), exercised: small containers
+    through the REAL calculate (arrays read back from the file it wrote) and through the TRANSLATED gen_calculate (vm_compute);
+    every cell of the three arrays compared, and the stored labels with gen_stored_*.  Most requests are the pipeline's (all
+    names of the container, in its order); the others are subsets, re-orderings, repetitions, unknown names, negative and
+    repeated windows."""
+    import json
+    from . import pool
+    n = n or (120 if chk.tier == "quick" else 2000)
+    cases = []
+    for k in range(n):
+        ng = r.randint(1, 6)
+        ids = r.sample(range(1, 40), ng)
+        genes = []
+        for i in ids:
+            s = r.randint(1, 6000)
+            genes.append([i, s, s + r.randint(0, 900)])
+        tes = []
+        for _ in range(r.randint(1, 7)):      # no TE at all: h5py refuses the zero-sized chunk (every chromosome of a run has a TE, _validate_split)
+            s = r.randint(1, 7000)
+            tes.append([s, s + r.randint(0, 1500)])
+        windows = sorted(r.sample(range(0, 3000, 100), r.randint(1, 4)))
+        requested = list(ids)
+        kind = "pipeline"
+        x = r.random()
+        if x < 0.12:
+            requested = r.sample(ids, r.randint(1, ng)); kind = "subset_or_reordered"
+        elif x < 0.2:
+            requested = ids + [r.choice(ids)]; kind = "repeated_name"
+        elif x < 0.28:
+            requested = ids[:1] + [77] + ids[1:]; kind = "unknown_name"
+        elif x < 0.36:
+            windows = windows + [-100]; r.shuffle(windows); kind = "negative_window"
+        elif x < 0.44:
+            windows = windows + [windows[0]]; kind = "repeated_window"
+        elif x < 0.5:
+            r.shuffle(windows); kind = "unsorted_windows"
+        cases.append({"genes": genes, "tes": tes, "windows": windows, "requested": requested, "kind": kind})
+    reps = pool.run_requests([{"op": "overlap.unit", "cases": cases[i:i + 30]} for i in range(0, len(cases), 30)], timeout=240)
+    real = []
+    for rep in reps:
+        real += rep["results"] if rep.get("ok") else [None] * 30
+    real = real[:len(cases)]
+    chk.oblige("real OverlapWorker.calculate executed on every small container", all(x is not None for x in real),
+               json.dumps([rep for rep in reps if not rep.get("ok")][:1])[:1500])
+    exprs = []
+    for c in cases:
+        G = "[" + "; ".join("mkG 0 %d%%N %s %s %s 0" % (i, common.zlit(s), common.zlit(e), common.zlit(e - s + 1)) for i, s, e in c["genes"]) + "]"
+        T = "[" + "; ".join("mkTE 0 %s %s 0 0" % (common.zlit(s), common.zlit(e)) for s, e in c["tes"]) + "]"
+        known = "[" + "; ".join("%d%%N" % i for i, _, _ in c["genes"]) + "]"
+        reqd = "[" + "; ".join("%d%%N" % i for i in c["requested"]) + "]"
+        W = "[" + "; ".join(common.zlit(w) for w in c["windows"]) + "]"
+        nw = len([w for w in c["windows"] if w >= 0])
+        exprs.append("oflat %d %d %d (gen_calculate %s %s %s (gd_of %s) %s) ++ [-9] ++ map Z.of_N (gen_stored_gene_names %s) ++ [-9] ++ gen_stored_windows (filter (fun w => negb (w <? 0)) %s)"
+                     % (len(c["genes"]), nw, len(c["tes"]), known, reqd, W, G, T, known, W))
+    try:
+        flats = common.coq_eval("ovunit_%s" % chk.pid, "From TEV Require Import Model.Pipeline Model.OverlapArr Gen.GenOverlap.", "", exprs, chunk=40)
+        chk.oblige("translated loop of OverlapWorker.calculate evaluated (vm_compute) on every small container", True)
+    except Exception as e:
+        chk.oblige("translated loop of OverlapWorker.calculate evaluated (vm_compute) on every small container", False, str(e)[-1500:])
+        return
+    nd, first = 0, None
+    for c, rr, f in zip(cases, real, flats):
+        if rr is None:
+            continue
+        chk.cov["evaluations"] += 1
+        chk.count("overlap_unit:%s" % c["kind"])
+        i1 = f.index(-9)
+        i2 = f.index(-9, i1 + 1)
+        mflat, mnames, mwins = f[:i1], f[i1 + 1:i2], f[i2 + 1:]
+        if rr["outcome"] == "raised":
+            same = mflat in ([-1], [-2])
+        else:
+            same = (mflat == rr["flat"] and rr["whole_numbers"] and ["g%d" % x for x in mnames] == rr["gene_names"] and mwins == rr["windows"])
+        if not same:
+            nd += 1
+            first = first or {"case": c, "real": rr, "translated": {"flat": mflat, "gene_names": mnames, "windows": mwins}}
+    chk.oblige("translated loop = real OverlapWorker.calculate on every small container: every cell of the three arrays, stored names and windows (%d containers, %d differ)"
+               % (len(cases), nd), nd == 0, json.dumps(first)[:2500] if first else "")
+
+
+def merge_unit(chk, r, n=None):
+    """The translator's reading of MergeData.sum, exercised: small containers through the REAL OverlapWorker.calculate and the REAL
+    MergeData.sum (arrays read back from the file) and through the TRANSLATED gen_calculate / gen_sum (vm_compute): every cell of the six
+    density arrays must be the correctly rounded quotient of the model's (numerator, divisor), and the stored labels the model's."""
+    import json
+    import numpy as np
+    from . import pool
+    n = n or (60 if chk.tier == "quick" else 1200)
+    cases = []
+    for k in range(n):
+        ng = r.randint(1, 5)
+        ids = r.sample(range(1, 40), ng)
+        genes = []
+        for i in ids:
+            s = r.randint(1, 6000)
+            genes.append([i, s, s + r.randint(0, 900)])
+        tes = []
+        norders = r.randint(1, 3)
+        for _ in range(r.randint(1, 8)):
+            s = r.randint(1, 7000)
+            o = r.randint(1, norders)
+            tes.append([s, s + r.randint(0, 1500), o, r.choice([o * 10, o * 10 + 1, 5])])     # superfamily 5 is shared by orders
+        windows = sorted(r.sample(range(0, 3000, 100), r.randint(1, 3)))
+        if r.random() < 0.2:
+            r.shuffle(windows)
+        cases.append({"genes": genes, "tes": tes, "windows": windows})
+    reps = pool.run_requests([{"op": "merge.unit", "cases": cases[i:i + 15]} for i in range(0, len(cases), 15)], timeout=300)
+    real = []
+    for rep in reps:
+        real += rep["results"] if rep.get("ok") else [None] * 15
+    real = real[:len(cases)]
+    chk.oblige("real OverlapWorker.calculate + MergeData.sum executed on every small container", all(x is not None and x.get("outcome") == "ok" for x in real),
+               json.dumps([x for x in real if x is None or x.get("outcome") != "ok"][:1] + [rep for rep in reps if not rep.get("ok")][:1])[:1500])
+    exprs = []
+    order = "[(LOrd, SR); (LSup, SI); (LOrd, SL); (LSup, SL); (LOrd, SI); (LSup, SR)]"
+    for c in cases:
+        G = "[" + "; ".join("mkG 0 %d%%N %s %s %s 0" % (i, common.zlit(s), common.zlit(e), common.zlit(e - s + 1)) for i, s, e in c["genes"]) + "]"
+        T = "[" + "; ".join("mkTE 0 %s %s %d%%N %d%%N" % (common.zlit(s), common.zlit(e), o, sf) for s, e, o, sf in c["tes"]) + "]"
+        names = "[" + "; ".join("%d%%N" % i for i, _, _ in c["genes"]) + "]"
+        W = "[" + "; ".join(common.zlit(w) for w in c["windows"]) + "]"
+        nw, ng = len(c["windows"]), len(c["genes"])
+        nord, nsup = len(set(t[2] for t in c["tes"])), len(set(t[3] for t in c["tes"]))
+        parts = []
+        for lv, cnt in (("LSup", nsup), ("LOrd", nord)):
+            parts.append("map Z.of_N (gen_group_names %s tes)" % lv)
+            for sd, w_ in (("SL", nw), ("SI", 1), ("SR", nw)):
+                parts.append("dflat %s %s %d %d %d st" % (lv, sd, cnt, w_, ng))
+        exprs.append("let tes := %s in let gd := gd_of %s in match gen_calculate %s (gen_job_gene_names %s) %s gd tes with Failed => [-7] | Running ov => "
+                     "let st := gen_sum %s %s %s (gen_stored_gene_names %s) (gen_stored_windows %s) gd tes ov in %s end"
+                     % (T, G, names, names, W, order, W, names, names, W, " ++ [-9] ++ ".join(parts)))
+    try:
+        flats = common.coq_eval("mgunit_%s" % chk.pid, "From TEV Require Import Model.Pipeline Model.OverlapArr Model.MergeArr Gen.GenOverlap Gen.GenMerge.", "", exprs, chunk=20)
+        chk.oblige("translated MergeData.sum evaluated (vm_compute) on every small container", True)
+    except Exception as e:
+        chk.oblige("translated MergeData.sum evaluated (vm_compute) on every small container", False, str(e)[-1500:])
+        return
+    nd, first, ncells = 0, None, 0
+    for c, rr, f in zip(cases, real, flats):
+        if rr is None or rr.get("outcome") != "ok":
+            continue
+        chk.cov["evaluations"] += 1
+        chk.count("merge_unit_containers")
+        segs, cur = [], []
+        for x in f:
+            if x == -9:
+                segs.append(cur); cur = []
+            else:
+                cur.append(x)
+        segs.append(cur)
+        bad = None
+        if len(segs) != 8:
+            bad = "model failed: %s" % f[:5]
+        else:
+            for axis, off, fmt in (("sup", 0, "s%03d"), ("ord", 4, "o%03d")):
+                if [fmt % x for x in segs[off]] != rr[axis + "_names"]:
+                    bad = bad or "%s names: model %s, stored %s" % (axis, segs[off], rr[axis + "_names"])
+                for si, side in enumerate("LIR"):
+                    pairs = segs[off + 1 + si]
+                    stored = rr[axis + side]["flat"]
+                    if len(pairs) != 2 * len(stored):
+                        bad = bad or "%s%s: %d model cells, %d stored (shape %s)" % (axis, side, len(pairs) // 2, len(stored), rr[axis + side]["shape"])
+                        continue
+                    for q, v in enumerate(stored):
+                        num, div = pairs[2 * q], pairs[2 * q + 1]
+                        ncells += 1
+                        if div <= 0 or (v != float(np.float32(num / div)) and v != num / div):
+                            bad = bad or "%s%s cell %d: stored %r, model %d/%d" % (axis, side, q, v, num, div)
+            if rr["gene_names"] != ["g%d" % i for i, _, _ in c["genes"]] or rr["windows"] != c["windows"]:
+                bad = bad or "stored gene names / windows differ from the container's"
+        if bad:
+            nd += 1
+            first = first or {"case": c, "difference": bad}
+    chk.cov["merge_unit_cells"] = ncells
+    chk.oblige("translated summation = real MergeData.sum on every small container: every cell of the six density arrays is the correctly rounded "
+               "quotient of the model's numerator and divisor, group names as stored (%d containers, %d cells, %d containers differ)" % (len(cases), ncells, nd),
+               nd == 0, json.dumps(first)[:2500] if first else "")
